@@ -207,6 +207,12 @@ func (s *APIRegServer) registerBidirectional(w http.ResponseWriter, r *http.Requ
 		clientAddrBytes = []byte(clientAddr.To16())
 	}
 
+	// A wrapper without a registration payload cannot be processed (and must not be dereferenced below)
+	if payload.GetRegistrationPayload() == nil {
+		http.Error(w, "no C2S body", http.StatusBadRequest)
+		return
+	}
+
 	// Check server's client config -- add server's ClientConf if client is outdated
 	serverClientConf := s.compareClientConfGen(payload.GetRegistrationPayload().GetDecoyListGeneration())
 	if serverClientConf != nil {
